@@ -23,6 +23,7 @@ def is_clean(rec):
 class ReadBase(Engine):
     harness = 'read'
     timeout = 1800
+    mismatch_is_failing_input = True
     keep_prefix = 2      # 'load' and the reference run stay when a case is shrunk
     _baseline = None
 
@@ -178,6 +179,7 @@ def mutate(rng, data):
 class Rd(ReadBase):
     """C01: hostile input (mutated reference archives), all formats and filters enabled."""
     name = 'rd'
+    keep_prefix = 1
 
     def gen(self, rng, tier):
         n = 120 if tier == 'quick' else 1500
